@@ -48,6 +48,8 @@ pub struct Spec {
     /// p_align of the PT_LOAD entries (missing entries: 4) and e_entry (None: H'100)
     pub aligns: Vec<u32>,
     pub entry: Option<u32>,
+    /// (st_info, st_shndx) of the symbol `___exit` (None: H'12 = global function, section 1)
+    pub exit_attr: Option<(u8, u16)>,
 }
 
 fn be16(v: &mut Vec<u8>, x: u16) {
@@ -180,9 +182,10 @@ impl Spec {
             be32(&mut symtab, ni);
             be32(&mut symtab, *v);
             be32(&mut symtab, 0);
-            symtab.push(0x12);
+            let (info, shndx) = if n == "___exit" { self.exit_attr.unwrap_or((0x12, 1)) } else { (0x12, 1) };
+            symtab.push(info);
             symtab.push(0);
-            be16(&mut symtab, 1);
+            be16(&mut symtab, shndx);
         }
         let shstr_off = off;
         off += shstr.len() as u32;
@@ -301,6 +304,7 @@ impl Spec {
             "paddrs": self.paddrs,
             "aligns": self.aligns,
             "entry": self.entry,
+            "exit_attr": self.exit_attr.map(|x| json!([x.0, x.1])),
             "nonload": self.nonload.iter().map(|x| json!([x.0, x.1, x.2, x.3])).collect::<Vec<_>>(),
             "file_order": self.file_order,
             "got": self.got.as_ref().map(|(a, e)| json!([a, e])),
@@ -328,6 +332,7 @@ impl Spec {
             seed: u(&v["seed"])?,
             aligns: v["aligns"].as_array().map(|a| a.iter().map(|x| u(x).unwrap_or(4)).collect()).unwrap_or_default(),
             entry: v["entry"].as_u64().map(|y| y as u32),
+            exit_attr: v["exit_attr"].as_array().map(|a| (a[0].as_u64().unwrap_or(0x12) as u8, a[1].as_u64().unwrap_or(1) as u16)),
             paddrs: v["paddrs"].as_array().map(|a| a.iter().map(|x| x.as_u64().map(|y| y as u32)).collect()).unwrap_or_default(),
             file_pads: v["file_pads"].as_array().map(|a| a.iter().map(|x| u(x).unwrap_or(0)).collect()).unwrap_or_default(),
             load_flags: v["load_flags"].as_array().map(|a| a.iter().map(|x| u(x).unwrap_or(7)).collect()).unwrap_or_default(),
@@ -356,6 +361,7 @@ pub fn default_spec() -> Spec {
         paddrs: Vec::new(),
         aligns: Vec::new(),
         entry: None,
+        exit_attr: None,
     }
 }
 
@@ -745,6 +751,14 @@ pub fn specs(tier: Tier) -> Vec<Spec> {
         sp.tail_share = shared.iter().map(|(a, b)| (a.to_string(), b.to_string())).collect();
         out.push(sp);
     }
+    // ---- factor: binding / type / section index of the symbol ___exit (its value is the exit address whatever they say)
+    for info in [0x10u8, 0x11, 0x12, 0x02, 0x00, 0x20, 0x22, 0x13] {
+        for shndx in [1u16, 2, 0xfff1, 0xfff2] {
+            let mut sp = d.clone();
+            sp.exit_attr = Some((info, shndx));
+            out.push(sp);
+        }
+    }
     // ---- factor: non-load program headers in every position (incl. last), 0-2 of them; p_type values whose low
     //      8 / 16 / 24 bits look like PT_LOAD
     for ty in [0u32, 4, 0x6474e551, 2, 3, 5, 6, 7, 0x101, 0x0001_0001, 0x0100_0001, 0x6000_0001, 0x7000_0001, 0xffff_0001, 0x8000_0001, 0x0002_0001, 0x6474_e550, 0x6474_e552] {
@@ -1036,7 +1050,7 @@ fn elf_units(prop: &'static str, tier: Tier) -> Vec<Unit> {
     let n = all.len() as u64;
     let chunks = 64u64.min(n);
     let dom = format!(
-        "{} generated ELF32-BE files, factorised so that each factor is a full product around a default layout: segment layouts (1-4 PT_LOAD, sizes/gaps from a small set incl. 0/1/3/4/0x71/0x1271, filesz <= memsz, file offsets not in address order), 0-2 non-load program headers in every position incl. last, all 120 orders of .shstrtab/.got/.stack/.symtab/.strtab x filler sections, .got of 0-3 and 64 entries at aligned/unaligned positions with carrying values, stack sizes 0-64 KiB, empty PT_LOAD entries sharing an address with / inside / between other segments, (C11 only: files without .stack whose last segment and GOT reach the last bytes of DRAM; p_paddr different from p_vaddr in four patterns, p_align in 0, 1, 4, H'10, H'1000, H'10000 and four e_entry values; three file-backed segments in all 6 table x 6 file x 6 memory orders with sizes, file paddings and memory gaps from one small set so that they coincide), symbol tables of 1-200 symbols with ___exit first/middle/last among decoys and names that extend ___exit, argument strings (all separator patterns x 0-3 words, 32 words, every printable ASCII character)",
+        "{} generated ELF32-BE files, factorised so that each factor is a full product around a default layout: segment layouts (1-4 PT_LOAD, sizes/gaps from a small set incl. 0/1/3/4/0x71/0x1271, filesz <= memsz, file offsets not in address order), 0-2 non-load program headers in every position incl. last, all 120 orders of .shstrtab/.got/.stack/.symtab/.strtab x filler sections, .got of 0-3 and 64 entries at aligned/unaligned positions with carrying values, stack sizes 0-64 KiB, empty PT_LOAD entries sharing an address with / inside / between other segments, (C11 only: files without .stack whose last segment and GOT reach the last bytes of DRAM; p_paddr different from p_vaddr in four patterns, p_align in 0, 1, 4, H'10, H'1000, H'10000 and four e_entry values; three file-backed segments in all 6 table x 6 file x 6 memory orders with sizes, file paddings and memory gaps from one small set so that they coincide), symbol tables of 1-200 symbols with ___exit first/middle/last among decoys and names that extend ___exit, ___exit with 8 binding/type bytes x 4 section indices, argument strings (all separator patterns x 0-3 words, 32 words, every printable ASCII character)",
         n
     );
     let mk = |name: &str, dom: &str, trace: bool| Unit::new(name, chunks, dom, move |ctx, chunk| {
